@@ -305,7 +305,8 @@ class Conditional(Operator):
 
     def evaluate(self, x, mapping, component, index_values):
         """Evaluate."""
-        c = self.ufl_operands[0].evaluate(x, mapping, component, index_values)
+        # The condition is scalar valued, the component applies to the values only
+        c = self.ufl_operands[0].evaluate(x, mapping, (), index_values)
         if c:
             a = self.ufl_operands[1]
         else:
